@@ -7,7 +7,11 @@
 //!   `M <fmt>`                                            metadata row of format number <fmt> (0..72)
 //!   `D <fmt> <w> <h> <seed>`                             decode byte consumption
 //!   `E <fmt> <w> <h> <color 0..11> <par 0|1> <seed>`     encode success / length
-//!   `T <fmt> <w> <h> <color 0..11> <seed>`               dithering acts only where advertised / requested
+//!   `R <fmt> <W> <H> <x> <y> <w> <h> <seed>`             byte consumption of a rectangle decode (`decode_rect` /
+//!                                                        `Decoder::read_surface_rect`, chosen by the seed)
+//!   `T <fmt> <w> <h> <color 0..11> <seed> [<q 0..3>]`    dithering acts only where advertised / requested
+//!                                                        (q = Fast, Normal, High, Unreasonable; absent: Fast or
+//!                                                        Normal by the seed)
 //!   `G <fmt> <color 0..11>`                              dithering canary (which path `pick_encoder` takes)
 //!
 //! The oracle (strings returned in the second component) evaluates the clauses of C19 directly
@@ -323,6 +327,53 @@ pub fn gen(seed: u64, thorough: bool) -> Vec<String> {
             }
         }
     }
+    // (2b) rectangle decodes consume the whole surface too. The vertical period of a format (block
+    // height / chroma sub-sampling; 1 for plain pixels) decides where a rectangle can start and end
+    // relative to the encoded lines: surface heights with every residue modulo the period (below one
+    // period and beyond two), every bottom edge, tops on and off line boundaries.
+    for f in 0..nf {
+        let (pw, ph) = match crate::c02::Px::from_info(PixelInfo::from(FORMATS[f])) {
+            crate::c02::Px::F(_) => (1u32, 1u32),
+            crate::c02::Px::B(_, bw, bh) => (bw as u32, bh as u32),
+            crate::c02::Px::P(_, _, sx, sy) => (sx as u32, sy as u32),
+        };
+        let mut heights: Vec<u32> = (1..=ph.max(3)).chain(2 * ph..3 * ph).collect();
+        heights.sort();
+        heights.dedup();
+        let tops = if thorough { 3 } else { 1 };
+        for &sh in &heights {
+            for bottom in 1..=sh {
+                for k in 0..tops {
+                    let sw = 1 + rng.below((2 * pw + 3) as u64) as u32;
+                    // tops: any row above the bottom edge; every other one moved onto a line boundary
+                    let mut y = rng.below(bottom as u64) as u32;
+                    if (bottom + k) % 2 == 0 {
+                        y -= y % ph;
+                    }
+                    let x = rng.below(sw as u64) as u32;
+                    let w = 1 + rng.below((sw - x) as u64) as u32;
+                    out.push(format!("R {f} {sw} {sh} {x} {y} {w} {} {}", bottom - y, rng.next() % 1000));
+                }
+            }
+            // the whole surface as a rectangle
+            let sw = 1 + rng.below((2 * pw + 3) as u64) as u32;
+            out.push(format!("R {f} {sw} {sh} 0 0 {sw} {sh} {}", rng.next() % 1000));
+        }
+        // PRNG: larger surfaces
+        let n = if thorough { 60 } else { 6 };
+        for _ in 0..n {
+            let sw = 1 + rng.below(40) as u32;
+            let sh = 1 + rng.below(40) as u32;
+            let x = rng.below(sw as u64) as u32;
+            let y = rng.below(sh as u64) as u32;
+            let w = 1 + rng.below((sw - x) as u64) as u32;
+            let h = 1 + rng.below((sh - y) as u64) as u32;
+            out.push(format!("R {f} {sw} {sh} {x} {y} {w} {h} {}", rng.next() % 1000));
+        }
+        // not inside the surface: refused
+        out.push(format!("R {f} 8 8 4 4 5 4 {}", rng.next() % 1000));
+        out.push(format!("R {f} 8 8 0 7 8 2 {}", rng.next() % 1000));
+    }
     // every colour format for every format at two sizes
     for f in 0..nf {
         for c in 0..12 {
@@ -355,6 +406,22 @@ pub fn gen(seed: u64, thorough: bool) -> Vec<String> {
             let c = [11usize, 7, 11, 10][k % 4];
             let (w, h) = *rng.pick(sizes);
             out.push(format!("T {f} {w} {h} {c} {}", rng.next() % 100000));
+        }
+    }
+    // (3b) the same comparison at every compression quality (the BC encoders switch algorithms with
+    // the quality, the others ignore it): RGBA inputs, so that the alpha content varies inside every block;
+    // small images (the highest quality is an exhaustive search)
+    let small: &[(u32, u32)] = &[(4, 4), (8, 8), (8, 4), (4, 8), (12, 8), (6, 10), (16, 16), (2, 2)];
+    let reps = if thorough { 6 } else { 1 };
+    for f in 0..nf {
+        for q in 0..4usize {
+            for (k, c) in [3usize, 7, 11, 12].into_iter().enumerate() {
+                for rep in 0..reps {
+                    let c = if c == 12 { rng.below(12) as usize } else { c };
+                    let (w, h) = small[(f + q + k + rep) % small.len()];
+                    out.push(format!("T {f} {w} {h} {c} {} {q}", rng.next() % 100000));
+                }
+            }
         }
     }
     out
@@ -594,6 +661,84 @@ fn run_decode(t: &[&str]) -> Option<(String, Vec<String>)> {
     }
     Some((s, oracle))
 }
+/// Byte consumption of a rectangle decode: after a successful `decode_rect` /
+/// `Decoder::read_surface_rect` the reader stands at surface start + advertised surface bytes,
+/// whatever part of the surface was asked for.
+fn run_rect(t: &[&str]) -> Option<(String, Vec<String>)> {
+    if t.len() != 9 {
+        return None;
+    }
+    let f = *FORMATS.get(p_usize(t[1])?)?;
+    let (sw, sh) = (p_u32(t[2])?, p_u32(t[3])?);
+    let (x, y, w, h) = (p_u32(t[4])?, p_u32(t[5])?, p_u32(t[6])?, p_u32(t[7])?);
+    let seed = p_u64(t[8])?;
+    if sw == 0 || sh == 0 || sw > 4096 || sh > 4096 || w == 0 || h == 0 || w > 4096 || h > 4096 {
+        return None;
+    }
+    let mut rng = Rng::new(seed ^ 0x4C19);
+    let surface = Size::new(sw, sh);
+    let size = Size::new(w, h);
+    let offset = Offset::new(x, y);
+    let advertised = PixelInfo::from(f).surface_bytes(surface)?;
+    // the surface does not start at the beginning of the stream, and something follows it
+    let start = rng.below(3) * 5;
+    let extra = 9usize;
+    let data = rand_bytes(&mut rng, start as usize + advertised as usize + extra, seed % 3 == 0);
+    let color = if rng.chance(1, 2) { f.color() } else { *rng.pick(&COLORS) };
+    let through_decoder = rng.chance(1, 2);
+    let mut buf = vec![0u8; color.buffer_size(size)?];
+    // returns the result and the position of the reader afterwards
+    let mut call = |bytes: &[u8], buf: &mut [u8]| -> Option<(Result<(), DecodingError>, u64)> {
+        let mut cur = Cursor::new(bytes);
+        cur.set_position(start);
+        let view = ImageViewMut::new(buf, size, color)?;
+        if through_decoder {
+            let mut d = match Decoder::from_header_with(cur, Header::new_image(sw, sh, f), f) {
+                Ok(d) => d,
+                Err(e) => return Some((Err(e), start)),
+            };
+            let r = d.read_surface_rect(view, offset);
+            Some((r, d.into_reader().position()))
+        } else {
+            let r = decode_rect(&mut cur, view, offset, surface, f, &DecodeOptions::default());
+            Some((r, cur.position()))
+        }
+    };
+    let api = if through_decoder { "Decoder::read_surface_rect" } else { "decode_rect" };
+    let what = format!("{api} of {:?} {}x{} rect {},{} {}x{}", f, sw, sh, x, y, w, h);
+    let mut oracle = vec![];
+    let (r, pos) = call(&data[..], &mut buf)?;
+    let s = match &r {
+        Ok(()) => format!("ok {}", pos.wrapping_sub(start)),
+        Err(e) => format!("err {}", short_dec_err(e)),
+    };
+    let inside = x.checked_add(w).map_or(false, |e| e <= sw) && y.checked_add(h).map_or(false, |e| e <= sh);
+    if r.is_ok() {
+        if pos != start + advertised {
+            oracle.push(format!(
+                "{what} consumed {} bytes, advertised {}",
+                pos as i128 - start as i128,
+                advertised
+            ));
+        }
+    } else if inside {
+        oracle.push(format!("{what} from {} bytes failed: {}", data.len() - start as usize, s));
+    }
+    if inside {
+        // exactly the advertised bytes are enough, and they are consumed
+        let (r, pos) = call(&data[..(start + advertised) as usize], &mut buf)?;
+        if r.is_err() {
+            oracle.push(format!("{what} fails with exactly the advertised {} bytes", advertised));
+        } else if pos != start + advertised {
+            oracle.push(format!(
+                "{what} (stream ends with the surface) consumed {} bytes, advertised {}",
+                pos as i128 - start as i128,
+                advertised
+            ));
+        }
+    }
+    Some((s, oracle))
+}
 fn r_is_ok(s: &str) -> bool {
     s.starts_with("ok")
 }
@@ -747,7 +892,7 @@ fn split_bits(bytes: &[u8], unit: usize, mask: &[u8]) -> (Vec<u8>, Vec<u8>) {
 }
 
 fn run_dither(t: &[&str]) -> Option<(String, Vec<String>)> {
-    if t.len() != 6 {
+    if t.len() != 6 && t.len() != 7 {
         return None;
     }
     let fi = p_usize(t[1])?;
@@ -758,6 +903,22 @@ fn run_dither(t: &[&str]) -> Option<(String, Vec<String>)> {
     if w == 0 || h == 0 || w > 256 || h > 256 {
         return None;
     }
+    let quality = match t.get(6) {
+        None => {
+            if seed % 7 == 0 {
+                CompressionQuality::Normal
+            } else {
+                CompressionQuality::Fast
+            }
+        }
+        Some(q) => match p_u32(q)? {
+            0 => CompressionQuality::Fast,
+            1 => CompressionQuality::Normal,
+            2 => CompressionQuality::High,
+            3 => CompressionQuality::Unreasonable,
+            _ => return None,
+        },
+    };
     let support = match f.encoding_support() {
         None => return Some(("unsupported".into(), vec![])),
         Some(s) => s,
@@ -773,7 +934,7 @@ fn run_dither(t: &[&str]) -> Option<(String, Vec<String>)> {
         let view = ImageView::new(&img, size, color)?;
         let mut options = EncodeOptions::default();
         options.parallel = seed % 5 == 0;
-        options.quality = if seed % 7 == 0 { CompressionQuality::Normal } else { CompressionQuality::Fast };
+        options.quality = quality;
         options.dithering = d;
         let mut o: Vec<u8> = vec![];
         if let Err(e) = encode(&mut o, view, f, None, &options) {
@@ -786,7 +947,7 @@ fn run_dither(t: &[&str]) -> Option<(String, Vec<String>)> {
     let e = |x: &Vec<u8>, y: &Vec<u8>| if x == y { "1" } else { "0" };
     let mut s = format!("adv={} C={} A={} CA={} CA~C={} CA~A={}", fmt_dith(adv), e(n, c), e(n, a), e(n, ca), e(ca, c), e(ca, a));
     let mut oracle = vec![];
-    let ctx = format!("{:?} {}x{} {} seed {}", f, w, h, fmt_color(color), seed);
+    let ctx = format!("{:?} {}x{} {} seed {} quality {:?}", f, w, h, fmt_color(color), seed, quality);
     // ---- oracle, clause (c)
     // formats advertising no dithering for a channel group ignore the option for it
     if !adv.color() {
@@ -886,6 +1047,7 @@ pub fn run(line: &str) -> Option<(String, Vec<String>)> {
         "H" => run_header(&t),
         "M" => run_meta(&t),
         "D" => run_decode(&t),
+        "R" => run_rect(&t),
         "E" => run_encode(&t),
         "T" => run_dither(&t),
         _ => None,
